@@ -358,6 +358,16 @@ fn run_g<A: SxK>(c: &Case, out: &mut Out) {
                         bad.push(format!("key {} not found by the slice with the same content", show_cut(&y)));
                     }
                 }
+                // Borrow<SeqSlice<A>> for &Seq<A>: a map keyed by references
+                let owned: Vec<Seq<A>> = distinct.iter().map(|cy| build(&vs.iter().find(|(_, y)| codes(y) == *cy).unwrap().1)).collect();
+                let by_ref: HashMap<&Seq<A>, usize> = owned.iter().enumerate().map(|(i, s)| (s, i)).collect();
+                for (i, cy) in distinct.iter().enumerate() {
+                    let y: Vec<A> = vs.iter().find(|(_, y)| codes(y) == *cy).unwrap().1.clone();
+                    let py = place(&y, s2, 2);
+                    if by_ref.get(py.view()) != Some(&i) {
+                        bad.push(format!("&Seq key {} not found by the slice with the same content", show_cut(&y)));
+                    }
+                }
                 let set: HashSet<Seq<A>> = vs.iter().map(|(_, y)| build(y)).collect();
                 if set.len() != distinct.len() {
                     bad.push(format!("HashSet of {} distinct contents has {} members", distinct.len(), set.len()));
